@@ -114,9 +114,6 @@ const TYPES: [(u8, u8, usize); 12] = [
     (1, 0, 1), (1, 1, 2), (1, 2, 4), (1, 3, 8),
     (2, 0, 1), (2, 1, 2), (2, 2, 4), (2, 3, 8),
 ];
-fn width_of(cls: u8, code: u8) -> Option<usize> {
-    TYPES.iter().find(|t| t.0 == cls && t.1 == code).map(|t| t.2)
-}
 
 macro_rules! dispatch {
     ($cls:expr, $code:expr, $f:ident ( $($a:expr),* )) => {
@@ -559,9 +556,12 @@ fn op_aref<T: Elem>(c: &mut Ctx, cls: u8, code: u8, mis: usize, qlen: usize, qaf
         }
         other => c.fail("numeric.aref.not_served", format!("aligned request was not served: {}", show_hout(other, None))),
     }
-    match (&o, &o2) {
-        (HOut::Called { resp_body: a, seen: sa, .. }, HOut::Called { resp_body: b2, seen: sb, .. }) if a == b2 && sa == sb => {}
-        _ => c.fail("numeric.aref.owned_view_differ", format!("handle(owned) gave {} but handle_view gave {}", &show_hout(&o2, None)[..show_hout(&o2, None).len().min(60)], &show_hout(&o, None)[..show_hout(&o, None).len().min(60)])),
+    let same = match (&o, &o2) {
+        (HOut::Called { resp_body: a, seen: sa, .. }, HOut::Called { resp_body: b2, seen: sb, .. }) => a == b2 && sa == sb,
+        (a, b2) => a == b2,
+    };
+    if !same {
+        c.fail("numeric.aref.owned_view_differ", format!("handle(owned) gave {} but handle_view gave {}", &show_hout(&o2, None)[..show_hout(&o2, None).len().min(60)], &show_hout(&o, None)[..show_hout(&o, None).len().min(60)]));
     }
     let _ = (cls, code);
     (format!("{} {} {}", c.idx, hex(&body), show_hout(&o, flag)), n > 0)
@@ -868,7 +868,9 @@ fn op_net<T: Elem>(c: &mut Ctx, server: usize, client: &str, kind: &str, route: 
         Err(e) => {
             let cl = cls_of(e);
             if expect_served {
-                let sig = if n == 0 { format!("numeric.net.{}.{}.rejects_generic_empty", kind, route) } else { format!("numeric.net.{}.{}.failed", kind, route) };
+                // the empty vector travels as serde's empty generic array in exactly these pairings
+                let generic_empty = n == 0 && ((kind == "serde" && route != "typed") || (kind == "bulk" && route == "typed"));
+                let sig = if generic_empty { format!("numeric.net.{}.{}.rejects_generic_empty", kind, route) } else { format!("numeric.net.{}.{}.failed", kind, route) };
                 c.fail(&sig, format!("echo of {} elements over {} client / server {} failed: {}", n, client, server, cl));
             }
             format!("err {}", cl)
@@ -882,10 +884,10 @@ fn exec(out: &mut Out, line: &str, net: Option<&Net>) {
     let w = words(line);
     let idx = w.get(1).copied().unwrap_or("?");
     out.begin(line);
-    let mut c = Ctx { out, line, idx, net };
+    let mut c = Ctx { out: &mut *out, line, idx, net };
     let u = |s: &str| -> usize { s.parse().expect("number in op line") };
     let ty = |a: &str, b: &str| -> (u8, u8) { (a.parse().unwrap(), b.parse().unwrap()) };
-    let (obs, nt) = match w[0] {
+    let r = catch(|| match w[0] {
         "enc" | "cenc" => {
             let (cls, code) = ty(w[2], w[3]);
             let p = unhex(w[5]).unwrap();
@@ -961,7 +963,20 @@ fn exec(out: &mut Out, line: &str, net: Option<&Net>) {
             let p = unhex(w[10]).unwrap();
             dispatch!(cls, code, op_net(&mut c, u(w[2]), w[3], w[4], w[5], cls, code, u(w[8]), u(w[9]), &p))
         }
-        other => panic!("unknown op {}", other),
+        other => {
+            eprintln!("unknown op {}", other);
+            std::process::exit(3)
+        }
+    });
+    let (obs, nt) = match r {
+        Ok(x) => x,
+        Err(msg) => {
+            // a panic of the code under test outside the decoders (builders, writers, clients)
+            let ops = vec![line.to_string()];
+            let short: String = msg.chars().take(160).collect();
+            out.oracle_fail(&format!("numeric.{}.panic", w[0]), &format!("the operation panicked: {}", short), &ops);
+            (format!("{} PANIC", idx), false)
+        }
     };
     out.count(&format!("op.{}", w[0]));
     out.case(line, &obs, nt);
@@ -1041,21 +1056,28 @@ impl Gen {
     }
 }
 
+/// The generator feeds the decoders with bodies made by the real encoders; an encoder that panics
+/// yields an empty body here and is reported by the op that exercises it (`enc`, `aenc`, …).
+fn guarded(f: impl FnOnce() -> Vec<u8>) -> Vec<u8> {
+    catch(f).unwrap_or_default()
+}
 fn real_typed_body(cls: u8, code: u8, payload: &[u8]) -> Vec<u8> {
-    dispatch!(cls, code, encode_as("regular", payload))
+    guarded(|| dispatch!(cls, code, encode_as("regular", payload)))
 }
 fn real_complex_body(cls: u8, code: u8, payload: &[u8]) -> Vec<u8> {
-    dispatch!(cls, code, encode_as("complex", payload))
+    guarded(|| dispatch!(cls, code, encode_as("complex", payload)))
 }
 fn real_generic<T: Elem>(complex: bool, payload: &[u8]) -> Vec<u8> {
-    if complex {
-        T::complex_serde_body(&cvec_of::<T>(payload)).body
-    } else {
-        Message::builder().body_beve(&vec_of::<T>(payload)).unwrap().build().body
-    }
+    guarded(|| {
+        if complex {
+            T::complex_serde_body(&cvec_of::<T>(payload)).body
+        } else {
+            Message::builder().body_beve(&vec_of::<T>(payload)).unwrap().build().body
+        }
+    })
 }
 fn real_aligned<T: Elem>(qlen: usize, payload: &[u8]) -> Vec<u8> {
-    Message::builder().query_bytes(path_of(qlen).into_bytes()).body_aligned_typed_slice(&vec_of::<T>(payload)).build().body
+    guarded(|| Message::builder().query_bytes(path_of(qlen).into_bytes()).body_aligned_typed_slice(&vec_of::<T>(payload)).build().body)
 }
 
 /// enc + genc + cross decoding (both decoders on both bodies) for one vector.
@@ -1229,7 +1251,7 @@ fn generate(seed: u64, thorough: bool) -> Vec<String> {
                 push!(g, "ref", "{} {} {} {} {} {}", cls, code, fmt, g.r.below(8), qlen, hex(&bad));
                 push!(g, "slice", "{} {} {} {} {}", cls, code, fmt, qlen, hex(&bad));
                 push!(g, "dec", "{} {} {} {}", cls, code, fmt, hex(&bad));
-                if src[0] == 0x5C {
+                if src.first() == Some(&0x5C) {
                     push!(g, "adec", "{} {} {} {}", cls, code, g.r.below(8), hex(&bad));
                 }
             }
@@ -1244,6 +1266,9 @@ fn generate(seed: u64, thorough: bool) -> Vec<String> {
         let p = gen_payload(&mut g.r, cls, code, w, 3, 1);
         let regular = real_typed_body(cls, code, &p);
         let aligned = dispatch!(cls, code, real_aligned(5, &p));
+        if regular.len() < 4 || aligned.len() < 4 {
+            continue;
+        }
         for b0 in 0..=255u8 {
             for src in [&regular, &aligned] {
                 let mut b = src.clone();
@@ -1291,7 +1316,7 @@ fn generate(seed: u64, thorough: bool) -> Vec<String> {
     for (cls, code, w) in TYPES {
         for round in 0..rounds {
             let complex = round % 3 == 2;
-            let n = match round { 0 => 0, 1 => g.r.range(60, 70), _ => g.r.boundary(if thorough { 12 } else { 9 }) } as usize;
+            let n = match round { 0 => 0, 1 | 2 => g.r.range(64, 80), _ => g.r.boundary(if thorough { 12 } else { 9 }) } as usize;
             let p = gen_payload(&mut g.r, cls, code, w, n, if complex { 2 } else { 1 });
             let qlen = if round == 0 { 0 } else { g.r.below(65) as usize };
             let q = g.r.bytes(qlen);
